@@ -147,7 +147,11 @@ static std::string run_history(const Args& a, long i) {
     // ---- start mesh and edge-length band ---------------------------------------------------------
     gen::TriMesh m; std::shared_ptr<epithelial_cell> c; auto ct = gen::default_cell_type(4, 0);
     double scale = 1, lmin = 0, lmax = 0, ratio = 3; bool have = false, lens = false, fan = false, tiny = false;
+    const bool big = a.geti("big", 0) != 0;   // one large mesh (node and face ids beyond 2^15 / 2^16): rejected construction is a violation here
     for (int attempt = 0; attempt < 30 && !have; attempt++) {
+        if (big) { lens = fan = tiny = false; m = gen::icosphere(6); gen::jitter(m, g, 0.05); m.name = "big_ico"; gen::rotate(m, gen::rot_random(g));
+            try { c = gen::make_cell<epithelial_cell>(m, 0, ct); } catch (const std::exception& e) { cs.viol("c01.valid_mesh_rejected:big", std::string("a valid closed sphere of 40962 nodes was rejected at construction: ") + e.what()); return cs.line(); }
+            double me = gen::mean_edge(m); lmin = me * g.uni(0.45, 0.6); lmax = 3 * lmin; ratio = 3; have = true; break; }
         if (g.coin(0.06)) {
             // 'lens6': 6 nodes, 8 faces; the needle ABC / ABD on the long edge AB has opposite nodes C, D that are already joined by an edge
             // (3-cycles A-C-D and B-C-D are not faces), A and B have four faces each: the configuration in which an edge swap must be refused
@@ -213,11 +217,11 @@ static std::string run_history(const Args& a, long i) {
 #endif
     Monitor mon; mon.c = c.get(); mon.lmin = lmin; mon.lmax = lmax; mon.swaps = swaps; mon.on = true;
     mon.oracle_c01 = which != "c11"; mon.oracle_c11 = which != "c01";
-    mon.sample_every = g.coin(0.1) ? 1 : g.range(4, 40);
+    mon.sample_every = big ? 20000 : g.coin(0.1) ? 1 : g.range(4, 40);
     if (a.geti("force_sample", 0) > 0) mon.sample_every = (int)a.geti("force_sample", 0);
-    mon.regimeA = g.coin(0.5);
+    mon.regimeA = tiny ? true : g.coin(0.5);
     g_mon = &mon; verif::get().remesh_event = sink;
-    const int npass = (lens || fan || tiny) ? g.range(1, 3) : g.range(5, (int)a.geti("max_passes", 25));
+    const int npass = big ? 2 : tiny ? g.range(2, 4) : (lens || fan) ? g.range(1, 3) : g.range(5, (int)a.geti("max_passes", 25));
     double D[3] = {1, 1, 1}; gen::Rot frame = gen::rot_random(g); double twist_state = 0;
     long passes_done = 0, repeated_conforming = 0, conforming_checked = 0, rebases = 0, direct_ops = 0; bool threw = false; std::string throw_what;
     long faces_max = 0;
@@ -249,6 +253,10 @@ static std::string run_history(const Args& a, long i) {
                 double nz = noise * (std::isfinite(minl[k]) && minl[k] < 1e299 ? minl[k] : 0);
                 Xn[k] = {(double)ctr.x + w[0] + nz * g.uni(-1, 1), (double)ctr.y + w[1] + nz * g.uni(-1, 1), (double)ctr.z + w[2] + nz * g.uni(-1, 1)};
             }
+            // tiny probe, later passes: one more edge is pulled below l_min (a cell that has just been collapsed to a tetrahedron still carries the
+            // unused slots of the collapse; its edges must not be collapsed either)
+            if (tiny && p > 0 && !TT.empty()) { const orc::Tri& t = TT[(size_t)(g.u64() % TT.size())]; unsigned u = t.a, w = t.b; double len = 0; for (int d = 0; d < 3; d++) len += (Xn[u][d] - Xn[w][d]) * (Xn[u][d] - Xn[w][d]); len = std::sqrt(len);
+                if (len > 0.6 * lmin) for (int d = 0; d < 3; d++) Xn[u][d] = Xn[w][d] + (Xn[u][d] - Xn[w][d]) * (0.5 * lmin / len); }
             if (!mon.regimeA) {
                 // one move must not turn any triangle by 60 degrees or more away from its cached normal: a larger turn in a single
                 // step is outside what the integrator produces, and the refiner legitimately relies on the cached normal
